@@ -15,7 +15,7 @@ import CTV.Model.SigVerify
 `prim` is the standard library's verdict on (key, digest, R, S) (resp. on the raw octets for RSA); when the
 model's strict parser yields other integers the answer is `rs-mismatch …`, which the diff reports. -/
 namespace CTV.Driver.C05
-open CTV CTV.Proto CTV.Der CTV.SigInput CTV.SigV
+open CTV CTV.Proto CTV.DerSig CTV.SigInput CTV.SigV
 
 def kindOf (s : String) : KeyKind :=
   if s = "rsa" then .rsa else if s = "dsa" then .dsa else if s = "ecdsa" then .ecdsa
